@@ -418,7 +418,12 @@ STUB_RULES = [
     (r'_ZNSt6chrono3_V212system_clock3nowEv|_ZNSt6chrono3_V212steady_clock3nowEv', 'return (RET)yk_clock();'),
     (r'clock_gettime', 'return 0;'),
     (r'_ZNSt6locale.*|_ZSt9use_facet.*|_ZNKSt5ctypeIcE13_M_widen_initEv|_ZSt16__throw_bad_castv', 'yk_fault("locale"); RETZERO'),
-    (r'_ZNSt7__cxx1112basic_stringIcSt11char_traitsIcESaIcEE(12_M_constructEmc|14_M_replace_auxEmmmc|9_M_mutateEmmPKcm|10_M_replaceEmmPKcm|9_M_appendEPKcm|9_M_createERmm|9_M_assignERKS4_|7reserveEm)',
+    # std::string, libstdc++ SSO layout {char* p; size_t len; union{char buf[16]; size_t cap;}}: append within the 15-byte
+    # local buffer is modelled field by field; anything that would allocate is a reported bound
+    (r'_ZNSt7__cxx1112basic_stringIcSt11char_traitsIcESaIcEE9_M_appendEPKcm',
+     'uint64_t len = a0->f1; if (len + a2 > 15) { yk_string_unmodelled(); } uint8_t* p = (uint8_t*)a0->f0.f0; '
+     'for (unsigned i = 0; i < 16; i++) { if (i < a2) p[len + i] = ((uint8_t*)a1)[i]; } a0->f1 = len + a2; p[len + a2] = 0; return a0;'),
+    (r'_ZNSt7__cxx1112basic_stringIcSt11char_traitsIcESaIcEE(12_M_constructEmc|14_M_replace_auxEmmmc|9_M_mutateEmmPKcm|10_M_replaceEmmPKcm|9_M_createERmm|9_M_assignERKS4_|7reserveEm)',
      'yk_string_unmodelled(); RETZERO'),
     (r'yk_.*', None),
     (r'yakushima_verif_hook|yakushima_verif_event', None),
@@ -456,6 +461,10 @@ class Translator:
         t.cut_hit = []
         t.yk_lines = {}
         t.calls = {}
+        t.frames = []
+        t.hooky_co = set()
+        t.co_used = set()
+        t.cur_prefix_for_calls = ''
 
     def c(t, ty):
         return t.mod.c(ty)
@@ -472,6 +481,9 @@ class Translator:
         if tok[0] == '@':
             t.used.add(tok)
             if tok in m.defs or tok in m.decls:
+                cr = t.opts.get('coroutines') or []
+                if t.opts.get('nested_coroutines') and raw(tok) in cr:
+                    return '((uint8_t*)&T%d_f_%s)' % (list(cr).index(raw(tok)), san(tok))
                 return '((uint8_t*)&f_%s)' % san(tok)
             return t.cast_to(ty, '&g_%s' % san(tok))
         if re.fullmatch(r'-?[0-9]+', tok):
@@ -607,11 +619,16 @@ class Translator:
                 return True
         return False
 
-    def translate_fn(t, name, coro=False):
+    def translate_fn(t, name, coro=False, prefix=''):
+        """coro: emit as a resumable coroutine.  prefix '' = a thread entry compiled stand-alone (void(void));
+        prefix 'T<i>_' = member of thread i's private clone set (nested coroutines): parameters / return value live in
+        file-scope statics <cname>__a<k> / <cname>__ret, the caller re-enters it after a pre-emption."""
         m = t.mod
         body = m.defs[name]
         _, ret, args = parse_header(body[0], m)
-        cname = 'f_' + san(name)
+        cname = prefix + 'f_' + san(name)
+        t.cur_prefix = prefix if coro else ''
+        t.cur_prefix_for_calls = prefix if coro else ''
         params = []
         for i, (ty, an) in enumerate(args):
             if an == '...':
@@ -620,13 +637,22 @@ class Translator:
             params.append('%s v_%s' % (t.c(ty), san(an) if an else str(i)))
         sig = '%s %s(%s)' % (t.c(ret), cname, ', '.join(params) or 'void')
         if coro:
-            if params or ret.k != 'void':
-                raise SyntaxError('coroutine thread entry %s must be void(void)' % raw(name))
+            if '...' in params:
+                raise SyntaxError('variadic coroutine ' + raw(name))
             sig = 'int %s(void)' % cname
+            fr = []
+            for i, (ty, an) in enumerate(args):
+                fr.append('static %s %s__a%d;' % (t.c(ty), cname, i))
+            if ret.k != 'void':
+                fr.append('static %s %s__ret;' % (t.c(ret), cname))
+            fr.append('static uint32_t %s__pc;' % cname)
+            t.frames.append(' '.join(fr))
         t.protos.append(sig + ';')
         if t.is_cut(name):
             t.cut_hit.append(raw(name))
             rz = '' if ret.k == 'void' else (' return (%s){0};' % t.c(ret) if ret.k in ('named', 'struct', 'array') else ' return (%s)0;' % t.c(ret))
+            if coro:
+                rz = ' return 0;'
             t.bodies.append('%s\n{ __CPROVER_assert(0, "cut:%s");%s }\n' % (sig, raw(name)[:80], rz))
             return
         blocks = []
@@ -1047,6 +1073,14 @@ class Translator:
                         t.used.add(callee)
                         t.calls.setdefault(name, set()).add(callee)
                         fn = 'f_' + san(callee)
+                        if coro and callee in t.hooky_co and callee in m.defs:
+                            # nested coroutine call: arguments into the callee's static frame, then (re-)enter it
+                            t.co_used.add(callee)
+                            cfn = t.cur_prefix_for_calls + fn
+                            if dest is not None and rty.k != 'void':
+                                decl[dest] = t.c(rty)
+                            st.append(('cocall', cfn, [a[1] for a in cargs], dest if (dest is not None and rty.k != 'void') else None))
+                            continue
                         # cast args to declared parameter types when the call type differs (varargs / bitcast callees)
                         e = '%s(%s)' % (fn, ', '.join(a[1] for a in cargs))
                         t.callsigs.setdefault(callee, (rty, [a[0] for a in cargs]))
@@ -1074,8 +1108,11 @@ class Translator:
             o.append('  %s%s %s;' % ('static ' if coro else '', ty, v))
         nres = [0]
         if coro:
-            o.append('  static uint32_t yk_pc;')
+            for i, (ty, an) in enumerate(args):
+                o.append('  static %s v_%s;' % (t.c(ty), san(an) if an else str(i)))
             o.append('  /*YK_DISPATCH*/')
+            for i, (ty, an) in enumerate(args):
+                o.append('  v_%s = %s__a%d;' % (san(an) if an else str(i), cname, i))
         loopmarks = []
 
         def edge(frm, to):
@@ -1151,15 +1188,24 @@ class Translator:
                         o.append('  }')
                     elif s[0] == 'ret':
                         if coro:
-                            o.append('  yk_pc = 0x7fffffffU; return 0;')
+                            if s[1] is not None:
+                                o.append('  %s__ret = %s;' % (cname, s[1]))
+                            o.append('  %s__pc = 0U; return 0;' % cname)
                         else:
                             o.append('  return;' if s[1] is None else '  return %s;' % s[1])
+                    elif s[0] == 'cocall':
+                        nres[0] += 1
+                        asg = ' '.join('%s__a%d = %s;' % (s[1], i, a) for i, a in enumerate(s[2]))
+                        o.append('  %s %s__pc = 0U;' % (asg, s[1]))
+                        o.append('  %s__pc = %dU; R_%d: ; if (%s()) return 1;' % (cname, nres[0], nres[0], s[1]))
+                        if s[3] is not None:
+                            o.append('  %s = %s__ret;' % (s[3], s[1]))
                     elif s[0] == 'call':
                         o.append('  ' + (s[2] + ';' if s[1] is None else '%s = %s;' % (s[1], s[2])))
                     elif s[0] == 'hook':
                         if coro:
                             nres[0] += 1
-                            o.append('  yk_pc = %dU; if (yk_preempt(%d, (const void*)%s)) return 1; R_%d: ;' % (nres[0], s[1], s[2], nres[0]))
+                            o.append('  %s__pc = %dU; if (yk_preempt(%d, (const void*)%s)) return 1; R_%d: ;' % (cname, nres[0], s[1], s[2], nres[0]))
                         else:
                             o.append('  yk_hook(%d, (const void*)%s);' % (s[1], s[2]))
                 else:
@@ -1167,7 +1213,7 @@ class Translator:
         o.append('}')
         if coro:
             di = o.index('  /*YK_DISPATCH*/')
-            disp = '  switch (yk_pc) { case 0U: break; case 0x7fffffffU: return 0; ' + ' '.join('case %dU: goto R_%d;' % (k, k) for k in range(1, nres[0] + 1)) + ' default: break; }'
+            disp = '  switch (%s__pc) { case 0U: break; ' % cname + ' '.join('case %dU: goto R_%d;' % (k, k) for k in range(1, nres[0] + 1)) + ' default: break; }'
             o[di] = disp
             info['resume_points'] = nres[0]
         info['loopmarks'] = loopmarks   # (line offset inside this function's text, kind)
@@ -1248,25 +1294,78 @@ def translate(text, roots, opts=None):
     work = ['@' + r if not r.startswith('@') else r for r in roots]
     missing = []
     gl_text = {}
-    coro = set(opts.get('coroutines', []))
+    coro = list(opts.get('coroutines', []))
+    nested = bool(opts.get('nested_coroutines'))
+    # pre-pass: direct call graph and which functions contain a hook
+    callg, has_hook = {}, set()
+    for fn_, lines in mod.defs.items():
+        cs = set()
+        for l in lines[1:]:
+            for mm in re.finditer(r'call [^@\n]*?(@"(?:[^"\\]|\\.)*"|@[A-Za-z0-9_.$]+)\(', l):
+                c = mm.group(1)
+                if c == '@yakushima_verif_hook':
+                    has_hook.add(fn_)
+                else:
+                    cs.add(c)
+        callg[fn_] = cs
+    hooky = set(has_hook)
+    changed = True
+    while changed:
+        changed = False
+        for fn_, cs in callg.items():
+            if fn_ not in hooky and any(c in hooky for c in cs):
+                hooky.add(fn_)
+                changed = True
+    # functions on a call-graph cycle cannot have a static frame: they stay plain (their hooks run atomically)
+    def on_cycle(f0):
+        seen, stack = set(), list(callg.get(f0, ()))
+        while stack:
+            g = stack.pop()
+            if g == f0:
+                return True
+            if g in seen:
+                continue
+            seen.add(g)
+            stack.extend(callg.get(g, ()))
+        return False
+    recursive = set(f for f in hooky if on_cycle(f))
+    t.hooky_co = (hooky - recursive) if nested else set()
+    atomic_callees = set()
+    work = []
+    for r in roots:
+        n = '@' + r if not r.startswith('@') else r
+        if raw(n) in coro:
+            work.append((n, 'T%d_' % coro.index(raw(n)) if nested else '', True))
+        else:
+            work.append((n, '', False))
     while work:
-        n = work.pop()
-        if n in done:
+        n, prefix, is_co = work.pop()
+        key = (n, prefix if is_co else '')
+        if key in done:
             continue
-        done.add(n)
+        done.add(key)
         if n in mod.defs:
             t.used = set()
-            t.translate_fn(n, coro=(raw(n) in coro))
-            work.extend(t.used)
+            t.co_used = set()
+            t.translate_fn(n, coro=is_co, prefix=prefix)
+            for u in t.used:
+                if u in t.co_used and is_co:
+                    continue
+                if is_co and u in mod.defs and u in hooky:
+                    atomic_callees.add(raw(u))
+                work.append((u, '', False))
+            for u in t.co_used:
+                work.append((u, prefix, True))
         elif n in mod.globals:
             t.used = set()
             gl_text[n] = t.emit_global(n)
             gdone.append(n)
-            work.extend(t.used)
+            work.extend((u, '', False) for u in t.used)
         elif n in mod.decls:
             pass
         else:
             raise SyntaxError('unknown symbol ' + n)
+    done_names = set(k[0] for k in done)
     out = []
     out.append('#include "rt.h"')
     emitted = set()
@@ -1309,11 +1408,13 @@ def translate(text, roots, opts=None):
         emit_ty(Ty('named', name=n))
     for n in list(mod.lit):
         emit_ty(mod.lit[n])
-    # prototypes: defined functions, then externals with stub bodies
+    # static frames of the coroutines, prototypes of defined functions, then externals with stub bodies
+    for fr in t.frames:
+        out.append(fr)
     for pr in t.protos:
         out.append(pr)
     ext_bodies = []
-    for callee in sorted(x for x in done if x in mod.decls and x not in mod.defs):
+    for callee in sorted(x for x in done_names if x in mod.decls and x not in mod.defs):
         rn = raw(callee)
         if rn.startswith('llvm.'):
             continue
@@ -1372,10 +1473,11 @@ def translate(text, roots, opts=None):
                 continue
             seen.add(g)
             stack.extend(t.calls.get(g, ()))
-    info = dict(recursive=sorted('f_' + san(x) for x in rec), functions=sorted(raw(x) for x in done if x in mod.defs),
-                externals=sorted(raw(x) for x in done if x in mod.decls and x not in mod.defs),
+    info = dict(recursive=sorted('f_' + san(x) for x in rec), functions=sorted(raw(x) for x in done_names if x in mod.defs),
+                coroutine_clones=sorted('%s%s' % (k[1], raw(k[0])) for k in done if k[1]), atomic_callees=sorted(atomic_callees),
+                externals=sorted(raw(x) for x in done_names if x in mod.decls and x not in mod.defs),
                 missing=sorted(set(missing)), loops=loops, cuts=t.cut_hit,
-                ir_lines={raw(x): len(mod.defs[x]) for x in done if x in mod.defs})
+                ir_lines={raw(x): len(mod.defs[x]) for x in done_names if x in mod.defs})
     return '\n'.join(out) + '\n', info
 
 
